@@ -4,14 +4,19 @@ KERNEL = ('Trusted: Coq 8.16.1 kernel (full .vo build, vm_compute, no native_com
 
 CLAIMED = {
     'C14': {
-        'technique': 'Rocq proof over a model regenerated from source (tie A) + correspondence (tie B)',
-        'text': ('Theorems in Rocq, for every directory content / every history of output generation: '
-                 'get_new_file_name (translated from filenames.py on every run) terminates and returns the least free '
-                 'candidate name, hence a name that does not exist; no history of writes through it ever changes an '
-                 'existing file. The translated definition is validated against the implementation on generated '
-                 'directories (vm_compute vs real calls).'),
-        'note': KERNEL + 'the py2v translator; directory modelled as a list of regular-file names; TOCTOU between is_file() '
-                'and open(), pickle/tomlkit round trips are outside the model (partial).',
+        'technique': 'Rocq proof over models regenerated from source (tie A: py2v + specialised fail-closed extractors) + correspondence and property oracles on real runs (tie B)',
+        'text': ('Proved for all inputs, axiom-free: get_new_file_name (translated every run) terminates and returns the least free name.ext, name~00.ext, ...; every '
+                 'history of writes through it leaves every earlier file intact; create_backup (translated) picks the least free base_k.ext and the renamed or copied '
+                 'file holds the original content with nothing else touched; parse_boolean (translated) accepts exactly the listed spellings and reads back the '
+                 'coding written by generate_document; every admissible well-typed parameter set survives generate_document/import_document (branches extracted '
+                 'from source) given tomlkit preserves entries; every attribute of a re-loaded results record equals the saved one given pickle loads.dumps = id; '
+                 'the DataFrame of get_estimated_parameters, the HTML rows, the F12 lines and the printed form have one row per parameter, in order, with name and '
+                 'estimate (loop skeletons, columns and formats extracted from source); a static scan shows every writer of results.py, biogeme.py and database.py '
+                 'takes its name from get_new_file_name. Tied and checked by seven streams: names, backup, boolean, history (directory snapshots by sha256 and mtime '
+                 'after every real writer call), toml (bit-exact values), reports (parsed back to printed precision), pickle. PARTIAL: TOCTOU between is_file() and '
+                 'open(); LaTeX row rendering is pandas\'.'),
+        'note': KERNEL + 'Section hypotheses: tomlkit parse/dumps, pickle load/dump; py2v and the extractors in lib/props/C14.py; OS rename/copy/open semantics; '
+                'Parameters.dump_file, the default biogeme.toml, sample_and_merge and __*.iter (C15) are not counted as result/report/data-dump files.',
     },
 }
 
@@ -234,6 +239,21 @@ CLAIMED['C07'] = {
              'convergence of the external simple_bounds with a pinned parameter).'),
     'note': KERNEL + 'py2v plus the C07 extractors, validated each run against recorded real calls; biogeme_optimization, scipy.optimize.minimize, FunctionToMinimize, '
             'cythonbiogeme are not verified; floats read as reals.',
+}
+
+CLAIMED['C12'] = {
+    'technique': 'Rocq proof over a recursion table regenerated from source (tie A) + hand model of the audit rules tied by correspondence streams and a fault-injection oracle (tie B)',
+    'text': ('Theorems, for all one-hole contexts over every operator kind: a missing column, a draw / integration variable / panel variable outside its operator, '
+             'inconsistent logit keys or choice, and duplicate names are reported by the audit as coded, wherever they sit; nests, data and second-derivative '
+             'refusals are characterised by iff theorems; every reported error is a genuine fault and a fault-free specification has an empty error list; on the lazy '
+             'semantics evalX a missing cell fails through every strict path and is irrelevant in unread positions of And/Or, ConditionalSum, Elem and logit. Tie A: '
+             'the table (class -> implementing method and its shape) is extracted with ast from expressions/*.py and catalog.py on every run; removing a recursion '
+             'breaks T12_0; an unknown shape aborts. Tie B: method-level correspondence and the property oracle on real entry points (BIOGEME, get_value_c, '
+             'get_value_and_derivatives, Database, models.*), per operator kind x slot x fault kind, plus the missing-data rule on one-row tables. Three open known '
+             'findings: dict formulas on panel data (the repository\'s own tests require acceptance), the engine\'s linear utility swallowing a missing value, the '
+             'eager LogLogit audit.'),
+    'note': KERNEL + 'the ast extractor and its class <-> head mapping; the expression bridge; evalX as the lazy reading semantics (engine modelled); pandas dtype '
+            'classes as abstracted in Model/Audit.v; LogLogit choice rule modelled for constant / column choices only.',
 }
 
 _NOT_YET = 'check not built yet in this session (framework under construction); no claim made'
